@@ -251,8 +251,16 @@ func syncNewDs(cfg syncConfig) *DbSyncer {
 // The chooser decides, before each remaining source segment, whether a 500 ms tick comes first
 // or the segment is delivered in two halves.
 func syncExecute(t *testing.T, cfg syncConfig, segs [][]byte, srv *mredis.Server, ch *seqx.Chooser) *syncResult {
+	return syncExecuteWith(t, cfg, segs, srv, ch, nil)
+}
+
+// syncExecuteWith: extra() runs after cfg has been applied (to install other filter lists).
+func syncExecuteWith(t *testing.T, cfg syncConfig, segs [][]byte, srv *mredis.Server, ch *seqx.Chooser, extra func()) *syncResult {
 	res := &syncResult{srv: srv}
 	cfg.apply()
+	if extra != nil {
+		extra()
+	}
 	var mu sync.Mutex
 	hook.SetExitHook(func(code int) {
 		mu.Lock()
